@@ -61,6 +61,7 @@ def run(ctx):
         ctx.run_rule("R5-write-intent", r5_intent, F)
         from rules import c11
         ctx.run_rule("R6-copy-up-fidelity", c11.r3_copy_up, F)
+        ctx.run_rule("R8-forwarding", r8_forwarding, F)
         ctx.run_rule("R6-live-tree", c11.r6_live_tree, F)            # the visible tree follows each operation
         ctx.run_rule("R7-preconditions", c11.r7_preconditions, F)    # each modifying step runs exactly when its precondition holds
     finally:
@@ -453,6 +454,34 @@ def loop_switches(b, v, header):
         g = [(R(x, b, v), l) for (x, l, w) in v.guards(u)]
         out.append((cond, edges, u, g))
     return out
+
+
+def r8_forwarding(ctx, F):
+    """An overlay operation hands the request's own scalars (offset, size, flags, mode, lock owner, ...) to the layer's operation
+    of the same kind in the same role: an argument that is a parameter named like one of the layer method's parameters must sit
+    in that parameter's position."""
+    from rules.c02 import fs_param_names
+    rule = "R8-forwarding"
+    n = 0
+    for k, b in overlay_fns(F):
+        v = None
+        for c in live_calls(b):
+            if not (c.trait == common.FS_TRAIT or (c.callee or "").endswith("Layer::" + c.name)):
+                continue
+            try:
+                pn = fs_param_names(F, c.name)
+            except Exception:
+                continue
+            v = v or vf.VF(b, inline_depth=0)
+            a = [R(x, b, v) for x in v.call_args(c)][1:]
+            owner = b.name if b.kind != "closure" else F.fns[b.owner].name + "/closure"
+            for i, t in enumerate(a):
+                tt = t.lstrip("^")
+                if tt in pn and i < len(pn):
+                    n += 1
+                    ctx.check(rule, "%s->%s/%s" % (owner, c.name, tt), pn[i] == tt,
+                              "%s passes its `%s` as the layer's `%s` in %s(..)" % (owner, tt, pn[i], c.name), loc=c.loc(), detail="%s@%d" % (tt, i))
+    ctx.check(rule, "sites", n >= 60, "only %d same-named arguments found between overlay operations and layer calls" % n)
 
 
 def layer_scan(ctx, F, rule):
